@@ -2,3 +2,4 @@ import Generated.FileConsts
 import Generated.LpLabels
 import Generated.Vartype
 import Generated.AbcSubst
+import Generated.Gates
